@@ -64,6 +64,13 @@ pub async fn persist_changes(
   })?;
   // Must be dropped since `write_stronghold_snapshot` needs to acquire the stronghold lock.
   drop(stronghold);
+  #[cfg(identity_rs_verif)]
+  if crate::verif_hooks::snapshot_write_fails() {
+    return Err(
+      KeyStorageError::new(KeyStorageErrorKind::Unspecified)
+        .with_custom_message("writing to stronghold snapshot failed (injected)"),
+    );
+  }
 
   match secret_manager {
     iota_sdk::client::secret::SecretManager::Stronghold(stronghold_manager) => {
